@@ -4,8 +4,14 @@ from qv.engine import fn_expr_place, fn_expr_operand
 from qv.props.common import in_span
 
 
+_PREDS = {}
+
+
 def is_adt(path):
-    return lambda t: t["k"] == "adt" and t["path"] == path
+    """memoised predicate (DB.ty_contains caches per predicate object, so the object must be stable)"""
+    if path not in _PREDS:
+        _PREDS[path] = lambda t, path=path: t["k"] == "adt" and t["path"] == path
+    return _PREDS[path]
 
 
 def leaf_paths(db, ti, pred, _depth=0, _seen=None):
@@ -261,3 +267,61 @@ def deep_read_paths(db, fn, param=1, depth=3, _seen=None):
                         out.add(r[1] + sp)
                     out.add(r[1])
     return out
+
+
+def pattern_bound_paths(p, prefix=()):
+    """field-name paths (from the matched value) at which the pattern binds a variable or a sub-pattern
+    that is not a wildcard; for enum variant patterns the path starts with 'as:<Variant>'"""
+    k = p["k"]
+    out = []
+    if k in ("ref", "box", "deref"):
+        return pattern_bound_paths(p["p"], prefix)
+    if k == "bind":
+        out.append(prefix)
+        if p.get("sub"):
+            out += pattern_bound_paths(p["sub"], prefix)
+        return out
+    if k == "or":
+        for x in p["ps"]:
+            out += pattern_bound_paths(x, prefix)
+        return out
+    if k == "ctor":
+        c = p.get("c") or {}
+        pre = prefix
+        if c.get("adt") and c.get("variant") and c["adt"].rsplit("::", 1)[-1] != c["variant"]:
+            pre = prefix + ("as:" + c["variant"],)
+        for f in p["fields"]:
+            out += pattern_bound_paths(f["p"], pre + (f["n"],))
+        return out
+    if k == "tuple":
+        for i, x in enumerate(p["ps"]):
+            out += pattern_bound_paths(x, prefix + (str(i),))
+        return out
+    return out
+
+
+def pattern_coverage(db, m, enum_path, pred):
+    """per variant holding T: which required leaf paths are bound by an explicit arm pattern of match m"""
+    req = variants_holding(db, enum_path, pred)
+    res = {}
+    for v, paths in req.items():
+        arm_kind = None
+        bound = []
+        for a in m["arms"]:
+            vs, catch = arm_variants(a, enum_path)
+            if v in vs:
+                arm_kind = "explicit"
+                bound = [b for b in pattern_bound_paths(a["pat"]) if b[:1] == ("as:" + v,)]
+                break
+            if catch and arm_kind is None:
+                arm_kind = "catch-all"
+        missing = []
+        if arm_kind == "explicit":
+            for p in paths:
+                full = ("as:" + v,) + p
+                if not any(full[: len(b)] == b or b[: len(full)] == full for b in bound):
+                    missing.append(p)
+        else:
+            missing = paths
+        res[v] = {"required": paths, "missing": missing, "arm": arm_kind}
+    return res
